@@ -200,7 +200,12 @@ def check_join_at_claim(h: History, program: Any) -> list[dict[str, Any]]:
                                     if d in ups_then:
                                         ups_then[d] = q["old"]
                                         raced.append(d)
-                            if raced and _join_ok(sp, ups_then, e)[0]:
+                            # ... unless that same jump rewrote this stage's own row as well (the stage lies in the jump's
+                            # re-armed set): then the claim's version check must have failed, and a claim that went through
+                            # all the same is no race the engine is known to lose
+                            own_rewritten = any(polled < q["seq"] < r["seq"] and q["kind"] == "stage" and q["row_id"] == sid
+                                                and ctx_handler(q["ctx"]) == "JumpToStage" for q in h.audit)
+                            if raced and not own_rewritten and _join_ok(sp, ups_then, e)[0]:
                                 out.append(V("C03", "claimed-before-join",
                                              f"stage {ref} ({sp.get('join', 'AND')}) left NOT_STARTED with upstream {ups}: {why}; the join was "
                                              f"met when the handler read it, a concurrent jump re-armed {raced} before the claim commit",
@@ -480,6 +485,33 @@ def stale_applications(h: History) -> list[dict[str, Any]]:
     return out
 
 
+def recovery_duplicates(h: History) -> list[dict[str, Any]]:
+    """Messages a recovery sweep queued for a *task* that already had a live message in the queue at that moment
+    (delivered-but-unacknowledged and delayed rows are live too): the sweep's pending-message guard exists to prevent
+    exactly that - two live RunTask chains make the task execute (poll, retry) extra times."""
+    import json as _json
+
+    live: dict[str, tuple[str, str]] = {}     # queue row id -> (type, task id)
+    out = []
+    for r in h.audit:
+        if r["kind"] == "q_del":
+            live.pop(r["row_id"], None)
+            continue
+        if r["kind"] != "q_ins":
+            continue
+        try:
+            p = _json.loads((r["extra"] or {}).get("payload") or "{}")
+        except Exception:
+            p = {}
+        tid = p.get("task_id") or ""
+        if tid and ctx_handler(r["ctx"]) == "recovery" and r["new"] in ("RunTask", "StartTask"):
+            twins = [t for (t, x) in live.values() if x == tid and t in ("RunTask", "StartTask", "CompleteTask")]
+            if twins:
+                out.append({"task": (h.task_info.get(tid) or {}).get("name", tid), "queued": r["new"], "already": twins, "seq": r["seq"]})
+        live[r["row_id"]] = (str(r["new"]), tid)
+    return out
+
+
 def sweep_in_claim_plan_window(h: History) -> list[dict[str, Any]]:
     """Recovery sweeps that queued work for a stage *between* a StartStage handling's claim commit and the last
     commit of the same handling (plan: tasks, synthetic before-stages, first StartTask / StartStage): the sweep saw
@@ -527,6 +559,27 @@ def sweep_in_claim_plan_window(h: History) -> list[dict[str, Any]]:
             if pending:
                 out.append({"stage": h.key_of_stage(sid), "queued": r["new"], "seq": r["seq"], "msg": "-", "how": "stale-read"})
     return out
+
+
+def rearmed_after_children(h: History, fs: dict[str, Any]) -> list[str]:
+    """Synthetic after- / on-failure stages that a jump re-armed (non-NOT_STARTED -> NOT_STARTED under JumpToStage), that
+    were never started again and whose parent is RUNNING at the end: CompleteStage of the failed parent counts every
+    after-child that is not complete as "in flight, it will drive the parent" - a re-armed leftover never will."""
+    last: dict[str, dict[str, Any]] = {}
+    for r in h.audit:
+        if r["kind"] == "stage" and r["old"] != r["new"]:
+            last[r["row_id"]] = r
+    out = []
+    final = {v["id"]: (k, v) for k, v in fs["stages"].items()}
+    for sid, r in last.items():
+        info = h.stage_info.get(sid) or {}
+        if not info.get("parent") or not str(info.get("owner") or "").endswith("AFTER"):
+            continue
+        if r["new"] == "NOT_STARTED" and ctx_handler(r["ctx"]) == "JumpToStage":
+            par = final.get(info["parent"])
+            if par is not None and par[1]["status"] == "RUNNING":
+                out.append(h.key_of_stage(sid))
+    return sorted(out)
 
 
 def jump_path_not_rearmed(h: History, prog: Any) -> list[dict[str, Any]]:
